@@ -7,6 +7,7 @@
 package c06
 
 import (
+	"errors"
 	"fmt"
 	"io"
 	"os"
@@ -14,6 +15,7 @@ import (
 	"strings"
 	"syscall"
 	"testing"
+	"testing/iotest"
 
 	"github.com/rogpeppe/go-internal/lockedfile"
 	"pgregory.net/rapid"
@@ -36,6 +38,8 @@ type Op struct {
 	Hold        int      `json:"hold,omitempty"` // yields while the handle / mutex is held
 	IO          []string `json:"io,omitempty"`   // through the handle: r w t
 	DoubleClose bool     `json:"double_close,omitempty"`
+	Dup         bool     `json:"dup,omitempty"`        // another descriptor of the same open file (as a child that inherited it would hold) outlives Close
+	ReaderErr   bool     `json:"reader_err,omitempty"` // write: the content reader fails after a few bytes
 }
 
 type TaskPlan struct {
@@ -89,6 +93,8 @@ func genPlan(t *rapid.T, tier string) any {
 					op.IO = nil
 				}
 				op.DoubleClose = rapid.IntRange(0, 5).Draw(t, "dbl") == 0
+				op.Dup = rapid.IntRange(0, 5).Draw(t, "dup") == 0
+				op.ReaderErr = rapid.IntRange(0, 3).Draw(t, "readererr") == 0
 				tp.Ops = append(tp.Ops, op)
 			}
 			p.Tasks = append(p.Tasks, tp)
@@ -297,7 +303,26 @@ func run(t *testing.T, plan any, keep bool) *simcheck.Outcome {
 							out.Violate("lock-lost-before-close", "%s %s: the descriptor no longer holds its lock although Close has not been called", tag, what)
 						}
 						release(path, ti)
+						dupFd := -1
+						if op.Dup {
+							dupFd, _ = syscall.Dup(int(f.Fd()))
+						}
 						cerr := f.Close()
+						if dupFd >= 0 {
+							// Close must have released the lock itself: another descriptor of the same
+							// open file is still open, so the kernel does not do it on close. Ask the
+							// kernel with a fresh descriptor (no yield since Close returned).
+							if sh, ex := simos.Holders(path); sh == 0 && ex == 0 {
+								if pf, err := os.OpenFile(path, os.O_RDWR, 0); err == nil {
+									if err := syscall.Flock(int(pf.Fd()), syscall.LOCK_EX|syscall.LOCK_NB); err != nil {
+										out.Violate("lock-kept-after-close", "%s %s: Close returned, nobody else holds %s, yet the kernel still refuses an exclusive lock (%v): the lock was left to the close of a descriptor that a child process also holds", tag, what, filepath.Base(path), err)
+									}
+									pf.Close()
+								}
+								out.Count("probe_close_with_inherited_descriptor", 1)
+							}
+							syscall.Close(dupFd)
+						}
 						if sf.LockMode() != 0 {
 							out.Violate("lock-kept-after-close", "%s %s: Close returned (%v) but the descriptor still holds the lock", tag, what, cerr)
 						}
@@ -333,7 +358,15 @@ func run(t *testing.T, plan any, keep bool) *simcheck.Outcome {
 					case "read":
 						lockedfile.Read(path)
 					case "write":
-						lockedfile.Write(path, strings.NewReader(tag+"\n"), 0o666)
+						if op.ReaderErr {
+							err := lockedfile.Write(path, io.MultiReader(strings.NewReader(tag), iotest.ErrReader(errors.New("content reader failed"))), 0o666)
+							if n := simos.OpenCountTask(me); n != 0 {
+								out.Violate("leak-after-failed-write", "%s Write returned (%v) but left %d descriptor(s) of this goroutine open (and locked)", tag, err, n)
+							}
+							out.Count("probe_write_with_failing_reader", 1)
+						} else {
+							lockedfile.Write(path, strings.NewReader(tag+"\n"), 0o666)
+						}
 					case "transform":
 						lockedfile.Transform(path, func(b []byte) ([]byte, error) {
 							simrt.Yield("transform.f")
@@ -394,6 +427,7 @@ var harness = &simcheck.Harness{
 		"flock conflicts are per open file description, so two descriptors of one OS process conflict exactly like two processes (measured)",
 		"holders never nest lock acquisitions (the workload cannot deadlock by itself)",
 	},
+	ManualGC:         true,
 	RequiredCounters: []string{"flock_calls", "flock_acquired", "probe_lock_request_blocked"},
 }
 
